@@ -249,6 +249,20 @@ def locale_task(task):
                 continue
             b, _ = align_lines(tx[i:i + 300], r2)
             back += b + [None] * (len(tx[i:i + 300]) - len(b))
+        # the same texts as stdin lines: there the scanner has to find the name by its length range in that locale
+        r3 = run([str(bindir / "dconv"), "--from-locale", lname, "-i", fmt, "-f", "%F"],
+                 stdin=b"\n".join(t.encode("latin-1") for t in tx) + b"\n", cpu=30, wall=120)
+        sh.procs += 1
+        if not sh.check_san(r3, "locale", "locale:parse-stdin:san"):
+            b3, _ = align_lines([t.encode("latin-1") for t in tx], r3)
+            for s, t, b in zip(src, tx, b3 + [None] * (len(tx) - len(b3))):
+                c = ("locale-stdin", "long" if "%A" in fmt else "abbr")
+                if s == b:
+                    sh.ok("locale", c)
+                else:
+                    sh.bad("locale", "locale-stdin:%s:%s" % (lname, c[1]), "locale %s: %s printed as %r, read back from a stdin line as %r" %
+                           (lname, s, t.encode("latin-1").decode("utf-8", "replace"), b),
+                           dict(argv=["dconv", "--from-locale", lname, "-i", fmt, "-f", "%F"], stdin=t, expected=s, observed=b), cls=c)
         for s, t, b in zip(src, tx, back):
             c = ("locale", "long" if "%A" in fmt else "abbr")
             if s == b:
